@@ -6,8 +6,9 @@ numeric exactness shared with C11 clause 4.
 """
 import json, os
 from ..core import callee_of, callee_names, is_call_to, unwrap, receiver_root
-from ..families import bodies_of_fn
+from ..families import bodies_of_fn, orientation_of_region
 from ..wire import _sccs
+from ..ranges import canon
 from .c11 import comparator_tables, CMP_O, CMP_B, arm_summary
 
 SPEC = os.path.join(os.path.dirname(os.path.dirname(os.path.dirname(os.path.abspath(__file__)))), 'spec', 'term_order.json')
@@ -49,36 +50,67 @@ def run(ctx):
             else:
                 ctx.ok('C12.1-rank-table', inst, '%s -> rank %s' % (ka, ranks[a]))
 
-    # ---------------- clause 3: big-integer digit order ---------------------------------------------------
-    ctx.rule('C12.3-bigint-digits', 'big-integer magnitudes (little-endian digit vectors, copied verbatim from the wire) are compared from the most significant digit: a direct Ord::cmp of the two digit vectors is lexicographic from the least significant byte', floor=2)
+    # ---------------- clause 3: big-integer comparison ---------------------------------------------------
+    ctx.rule('C12.3-bigint-digits', 'big-integer magnitudes (little-endian digit vectors, copied verbatim from the wire) are compared from the most significant digit: '
+             'every comparison of two digit sequences runs over the reversed sequences', floor=4)
+    ctx.rule('C12.3-bigint-signs', 'compare_bigint decides mixed signs by the sign alone (positive > negative), compares two positives by magnitude (length, then digits) in the '
+             'direct orientation and two negatives with EVERY magnitude comparison in the opposite orientation (operands swapped or the result reversed)', floor=8)
     for mod in ('term', 'borrowed'):
         fn = 'erltf::%s::compare_bigint' % mod
-        bodies = bodies_of_fn(P, fn)
-        if not ctx.anchor(bool(bodies), fn):
+        FB = P.B(fn)
+        if not ctx.anchor(FB is not None, fn):
             continue
-        direct = []
-        reversed_ = False
-        for FB in bodies:
-            for bb, t in FB.calls():
-                g, r = callee_of(t)
-                names = [n for n in (g, r) if n]
-                if g == 'core::cmp::Ord::cmp' and t['args']:
-                    b0, p0 = receiver_root(FB, t['args'][0])
-                    b1, p1 = receiver_root(FB, t['args'][1]) if len(t['args']) > 1 else (None, ())
-                    ty = (t.get('aty') or [''])[0]
-                    if 'digits' in [x for x in p0 if isinstance(x, str)] and 'Vec<u8>' in ty and 'len' not in str(p0):
-                        direct.append((FB, bb))
-                if any(n.endswith('::rev') or n.endswith('Iterator::rev') or 'cmp_by' in n or n.endswith('::rposition') for n in names):
-                    reversed_ = True
-        inst = mod + '::compare_bigint'
-        if direct:
-            FB, bb = direct[0]
-            ctx.bad('C12.3-bigint-digits', inst, 'equal-length magnitudes are compared with Vec<u8>::cmp on the little-endian digit vectors, i.e. from the LEAST significant byte: 256 (digits [0,1]) compares less than 255+... e.g. [0,1] < [1,0] although 256 > 1',
-                    ctx.where(FB, bb), key='SHAPE:%s:lsb-first' % fn)
-        elif reversed_:
-            ctx.ok('C12.3-bigint-digits', inst, 'magnitudes compared from the most significant digit')
-        else:
-            ctx.undecided('C12.3-bigint-digits', inst, 'comparison shape not recognised')
+        arms = _sign_arms(FB)
+        if not ctx.anchor(len(arms) == 4, fn + ':match (a.sign, b.sign) with four arms'):
+            continue
+        names = {0: 'Positive', 1: 'Negative'}
+        for (sa, sb), start in sorted(arms.items()):
+            inst = '%s::compare_bigint:(%s,%s)' % (mod, names[sa], names[sb])
+            region = FB.reachable(start)
+            if sa != sb:
+                consts = {st['rv']['var'] for bb in region for st in FB.blocks[bb]['s']
+                          if st['k'] == '=' and st['pl']['l'] == 0 and st['rv']['k'] == 'agg' and st['rv'].get('adt') == 'core::cmp::Ordering'}
+                want = 'Greater' if sa == 0 else 'Less'
+                if consts == {want}:
+                    ctx.ok('C12.3-bigint-signs', inst, 'constant %s' % want, ctx.where(FB, start))
+                else:
+                    ctx.bad('C12.3-bigint-signs', inst, 'a %s and a %s big integer must compare %s by sign alone; the arm yields %s' % (names[sa].lower(), names[sb].lower(), want, sorted(consts) or 'a computed value'),
+                            ctx.where(FB, start), key='SHAPE:%s:signs:%s-%s' % (fn, names[sa], names[sb]))
+                continue
+            comps = orientation_of_region(P, FB, region, {1: 'a', 2: 'b'})
+            want = 1 if sa == 0 else -1
+            if not comps:
+                ctx.undecided('C12.3-bigint-signs', inst, 'no comparison recognised in the arm')
+                continue
+            wrong = [c for c in comps if c[3] is not None and c[3] != want]
+            unknown = [c for c in comps if c[3] is None]
+            if wrong:
+                CB, bb, nm, o, ch = wrong[0]
+                ctx.bad('C12.3-bigint-signs', inst, 'for two %s big integers %d of the %d magnitude comparisons (%s at %s) run in the %s orientation: %s' % (
+                    names[sa].lower(), len(wrong), len(comps), nm, CB.path.rsplit('::', 1)[-1], 'direct' if o == 1 else 'reversed',
+                    'of two negative numbers the one with the larger magnitude is the smaller' if sa == 1 else 'of two positive numbers the one with the larger magnitude is the larger'),
+                    ctx.where(CB, bb), key='SHAPE:%s:signs:%s-%s:orientation' % (fn, names[sa], names[sb]))
+            elif unknown:
+                ctx.undecided('C12.3-bigint-signs', inst, 'operands of %d comparison(s) could not be attributed to a / b' % len(unknown))
+            else:
+                ctx.ok('C12.3-bigint-signs', inst, '%d comparisons, all %s' % (len(comps), 'a-vs-b' if want == 1 else 'b-vs-a (swapped or reversed)'), ctx.where(FB, start))
+            # digit sequences: most significant first
+            for CB, bb, nm, o, (c0, c1) in comps:
+                t = CB.blocks[bb]['t']
+                tys = ' '.join(t.get('aty') or [])
+                on_digits = all('digits' in str(receiver_root(CB, a_)[1]) or any('iter' in x for x in ch_) for a_, ch_ in zip(t['args'][:2], (c0, c1)))
+                is_len = any(x.endswith('::len') for x in c0 + c1)
+                if is_len or 'usize' in tys.split(' ')[0:1]:
+                    continue
+                dinst = '%s::compare_bigint:(%s,%s):%s@%s' % (mod, names[sa], names[sb], nm, CB.path.rsplit('::', 1)[-1])
+                msb = all(any(x.endswith('::rev') or 'cmp_by' in x for x in ch_) for ch_ in (c0, c1))
+                if msb:
+                    ctx.ok('C12.3-bigint-digits', dinst, 'both digit sequences are reversed before the comparison', ctx.where(CB, bb))
+                elif 'Vec<u8>' in tys or 'Iter' in tys or '[u8]' in tys:
+                    ctx.bad('C12.3-bigint-digits', dinst, 'equal-length magnitudes are compared from the LEAST significant byte (no .rev() on %s): [0,1] (256) compares below [1,0] (1)' % (
+                        'either side' if not any(any(x.endswith('::rev') for x in ch_) for ch_ in (c0, c1)) else 'one side'), ctx.where(CB, bb), key='SHAPE:%s:lsb-first' % fn)
+                else:
+                    ctx.undecided('C12.3-bigint-digits', dinst, 'comparison of %s not recognised' % tys)
 
     # ---------------- clause 4/5: container recipes ------------------------------------------------------------
     ctx.rule('C12.4-map-recipe', 'maps compare by size, then all keys, then all values: a single loop that compares the key and the value of each entry interleaves them', floor=2)
@@ -102,13 +134,30 @@ def run(ctx):
                 for l in loops:
                     cmps = [bb for bb in l if CB.blocks[bb]['t']['k'] == 'call' and (callee_of(CB.blocks[bb]['t'])[0] == 'core::cmp::Ord::cmp')
                             and 'Term' in str(CB.blocks[bb]['t'].get('aty'))]
+                    # comparisons deferred into closures built inside the loop (k1.cmp(k2).then_with(|| v1.cmp(v2)))
+                    for bb in sorted(l):
+                        for st in CB.blocks[bb]['s']:
+                            if st['k'] == '=' and st['rv']['k'] == 'agg' and st['rv']['ak'] == 'closure':
+                                NB = P.B(st['rv']['def'])
+                                if NB is not None and any(callee_of(t_)[0] == 'core::cmp::Ord::cmp' and 'Term' in str(t_.get('aty')) for _, t_ in NB.calls()):
+                                    cmps.append(bb)
                     if len(cmps) >= 2:
                         inter = (CB, cmps)
             if inter:
                 ctx.bad('C12.4-map-recipe', inst, 'the Map arm compares key and value of each entry inside ONE loop (k1 vs k2, then v1 vs v2, per entry): Erlang compares all keys first and the values only if all keys are equal, so e.g. #{a=>2,b=>1} vs #{a=>1,c=>0} is decided by the value of a instead of by the keys b < c',
                         ctx.where(inter[0], inter[1][0]), key='SHAPE:%s:Map:interleaved' % cmpname)
             elif closures:
-                ctx.ok('C12.4-map-recipe', inst, 'keys and values are not compared inside the same loop')
+                # positive shape: one pass over the keys, then one over the values
+                names = [n for cdef in closures if P.B(cdef) is not None for _, t_ in P.B(cdef).calls() for n in callee_names(t_)]
+                has_keys = any(n.endswith('::keys') for n in names)
+                has_vals = any(n.endswith('::values') for n in names)
+                if has_keys and has_vals:
+                    ctx.ok('C12.4-map-recipe', inst, 'one loop over keys(), then one over values(); no loop compares two things per entry')
+                elif any('btree' in n and n.endswith('::iter') for n in names) and not has_keys:
+                    ctx.bad('C12.4-map-recipe', inst, 'the Map arm walks the entries (BTreeMap::iter) and never the keys alone: entries are compared pairwise (key, value), so an earlier value decides before a later key',
+                            ctx.where(B, r['bb']), key='SHAPE:%s:Map:interleaved' % cmpname)
+                else:
+                    ctx.undecided('C12.4-map-recipe', inst, 'keys and values are not compared inside the same loop, but the keys()/values() passes were not recognised')
             else:
                 ctx.undecided('C12.4-map-recipe', inst, 'no comparison closure found in the Map arm')
         # Tuple: first call on the arm is len().cmp (size first)
@@ -144,6 +193,37 @@ def run(ctx):
                     ctx.ok('C12.5-recipes', inst, 'atoms are compared by their text')
                 else:
                     ctx.bad('C12.5-recipes', inst, 'atom arm does not compare the names: %s' % pr, ctx.where(B, r['bb']), key='SHAPE:%s:Atom:by-name' % cmpname)
+
+
+def _sign_arms(B):
+    """(sign of a, sign of b) -> first block of the arm of `match (a.sign, b.sign)`; signs: 0 Positive, 1 Negative"""
+    tup = None
+    for bb, j, st in B.stmts():
+        if st['k'] == '=' and st['rv']['k'] == 'agg' and st['rv']['ak'] == 'tuple' and len(st['rv']['ops']) == 2 \
+                and all("'sign'" in str(canon(B, o)) for o in st['rv']['ops']):
+            tup = st['pl']['l']
+    out = {}
+    if tup is None:
+        return out
+    for sa in (0, 1):
+        for sb in (0, 1):
+            bb, steps = 0, 0
+            while steps < 50:
+                steps += 1
+                t = B.blocks[bb]['t']
+                if t['k'] in ('goto', 'falseedge', 'falseunwind') and not any(st['k'] == '=' for st in B.blocks[bb]['s']):
+                    bb = t['t']
+                    continue
+                sd = B.switch_on_discr(bb)
+                if sd and sd[0]['l'] == tup and sd[0].get('p'):
+                    f = sd[0]['p'][0].get('f') if isinstance(sd[0]['p'][0], dict) else None
+                    v = sa if f == 0 else sb
+                    tgt = [b_ for c_, b_ in sd[2] if c_ == v]
+                    bb = tgt[0] if tgt else sd[3]
+                    continue
+                break
+            out[(sa, sb)] = bb
+    return out
 
 
 def _closures_in(B, start):
